@@ -1,6 +1,7 @@
 package main
 
 import (
+	"fmt"
 	"go/constant"
 	"go/token"
 	"strings"
@@ -350,6 +351,7 @@ func ruleGroupEntries(r *Run) {
 	}
 	nSucc := 0
 	sgood := true
+	mapForm := false
 	for _, ret := range returnsOf(fn) {
 		if len(ret.Results) != 2 || !isNilConst(ret.Results[1]) {
 			continue
@@ -357,6 +359,18 @@ func ruleGroupEntries(r *Run) {
 		nSucc++
 		res := stripConv(ret.Results[0])
 		vc, ok := res.(*ssa.Call)
+		if !ok {
+			// collected by hand: one loop over the stream map that sorts each stream's Values and
+			// appends the stream to the (initially empty) result
+			if why := groupEntriesCollectLoop(fn, mu.Map, res, ret); why == "" {
+				mapForm = true
+				continue
+			} else if why != "-" {
+				sgood = false
+				os.Fail(r.pos(ret.Pos()), "%s", why)
+				continue
+			}
+		}
 		if !ok || vc.Common().StaticCallee() == nil || cname(vc.Common().StaticCallee()) != "Values" || vc.Call.Args[0] != mu.Map {
 			sgood = false
 			os.Fail(r.pos(ret.Pos()), "success return yields %s, not the values of the stream map", describe(res, 0))
@@ -405,9 +419,147 @@ func ruleGroupEntries(r *Run) {
 	}
 	if nSucc == 0 {
 		os.Fail(r.pos(fn.Pos()), "no success return found")
+	} else if sgood && mapForm && sortCall == nil {
+		os.OK("%d success return(s) of the streams collected by one loop over the stream map that sorts each stream's Values by T ascending", nSucc).At(r.pos(fn.Pos()))
 	} else if sgood {
 		os.OK("%d success return(s) dominated by the per-stream sort (cmp.Compare(a.T, b.T))", nSucc).At(r.pos(sortCall.Pos()))
 	}
+}
+
+// groupEntriesCollectLoop: res (returned at ret) is built by one `for _, s := range m` loop that, in
+// every iteration, sorts s.Values ascending by T and appends s to an accumulator that starts empty.
+// "" when so, "-" when res is not of this form at all, otherwise what is wrong with it.
+func groupEntriesCollectLoop(fn *ssa.Function, m ssa.Value, res ssa.Value, ret *ssa.Return) string {
+	var nx *ssa.Next
+	allInstrs(fn, func(in ssa.Instruction) {
+		if rg, ok := in.(*ssa.Range); ok && (rg.X == m || describe(rg.X, 0) == describe(m, 0)) {
+			for _, ref := range *rg.Referrers() {
+				if n, ok := ref.(*ssa.Next); ok {
+					nx = n
+				}
+			}
+		}
+	})
+	if nx == nil {
+		return "-"
+	}
+	blocks := naturalLoop(nx.Block())
+	var elem ssa.Value
+	for _, ref := range *nx.Referrers() {
+		if e, ok := ref.(*ssa.Extract); ok && e.Index == 2 {
+			elem = e
+		}
+	}
+	if elem == nil {
+		return "-"
+	}
+	isElem := func(v ssa.Value) bool {
+		v = unspill(v)
+		if v == elem {
+			return true
+		}
+		if u, ok := v.(*ssa.UnOp); ok && u.Op == token.MUL {
+			if al, ok := u.X.(*ssa.Alloc); ok {
+				sts := storesTo(al)
+				return len(sts) == 1 && sts[0].Val == elem
+			}
+		}
+		return false
+	}
+	// the returned value: a phi at the loop header of {empty make, append in the loop}
+	nApp := 0
+	var app *ssa.Call
+	for _, lv := range phiLeaves(res) {
+		switch x := lv.(type) {
+		case *ssa.MakeSlice:
+			if c, ok := constOf(x.Len); !ok || c.Kind() != constant.Int || constant.Sign(c) != 0 {
+				return "the collected result does not start empty"
+			}
+		case *ssa.Const:
+			if x.Value != nil {
+				return "-"
+			}
+		case *ssa.Call:
+			if !isAppend(x) || !blocks[x.Block()] {
+				return "-"
+			}
+			nApp++
+			app = x
+		default:
+			return "-"
+		}
+	}
+	if nApp != 1 {
+		return "-"
+	}
+	// appended: exactly the ranged stream
+	one := false
+	if sl, ok := app.Call.Args[1].(*ssa.Slice); ok {
+		if al, ok := sl.X.(*ssa.Alloc); ok {
+			n := 0
+			for _, ref := range *al.Referrers() {
+				if ia, ok := ref.(*ssa.IndexAddr); ok {
+					for _, st := range storesTo(ia) {
+						n++
+						one = isElem(st.Val)
+					}
+				}
+			}
+			one = one && n == 1
+		}
+	}
+	if !one {
+		return "the loop over the stream map appends " + describe(app.Call.Args[1], 0) + ", not the ranged stream"
+	}
+	var sortCall *ssa.Call
+	for b := range blocks {
+		for _, in := range b.Instrs {
+			if c, ok := in.(*ssa.Call); ok {
+				if callee := c.Common().StaticCallee(); callee != nil && (cname(callee) == "SortFunc" || callee.Origin() != nil && callee.Origin().Name() == "SortFunc") {
+					sortCall = c
+				}
+			}
+		}
+	}
+	if sortCall == nil {
+		return "no loop over the returned streams that sorts each stream's Values"
+	}
+	// every iteration sorts and appends: the loop has no branch besides its header, no early exit
+	for b := range blocks {
+		if b == nx.Block() {
+			continue
+		}
+		if _, ok := b.Instrs[len(b.Instrs)-1].(*ssa.If); ok {
+			return "the sort or the collection of a stream is conditional"
+		}
+		for _, sc := range b.Succs {
+			if !blocks[sc] {
+				return "the collecting loop can be left before every stream is sorted"
+			}
+		}
+	}
+	if !nx.Block().Dominates(ret.Block()) {
+		return "a success return is reachable without passing the sorting loop"
+	}
+	f, base, ok := loadOfField(sortCall.Call.Args[0])
+	if !ok || f != "Values" || !(isElem(base) || func() bool {
+		al, ok := base.(*ssa.Alloc)
+		if !ok {
+			return false
+		}
+		sts := storesTo(al)
+		return len(sts) == 1 && sts[0].Val == elem
+	}()) {
+		return "SortFunc is applied to " + describe(sortCall.Call.Args[0], 0) + ", not to the ranged stream's Values"
+	}
+	fld, asc, ok := cmpOrientation(funcOfValue(sortCall.Call.Args[1]))
+	if !ok {
+		return "comparator is not of the form cmp.Compare(a.f, b.f)"
+	}
+	if fld != "T" || !asc {
+		return fmt.Sprintf("comparator orders by %s ascending=%v, expected T ascending", fld, asc)
+	}
+	return ""
 }
 
 // ruleLabelSetString: the stream key is order-independent and injective.
